@@ -80,7 +80,7 @@ Lemma stop_workflow_hdr s x s1 : stop_workflow s x = Some s1 -> hdr_only s s1.
 Proof.
   unfold stop_workflow, succeed_workflow, fail_workflow, cancel_workflow.
   destruct x; try (intros H; inversion H; left; reflexivity).
-  - apply wf_set_state_hdr.
+  - destruct (state_eqb _ SUCCESS); [intros H; inversion H; left; reflexivity|apply wf_set_state_hdr].
   - destruct (is_completed _); [intros H; inversion H; left; reflexivity|apply wf_set_state_hdr].
   - destruct (is_completed _); [intros H; inversion H; left; reflexivity|apply wf_set_state_hdr].
 Qed.
@@ -97,7 +97,8 @@ Proof.
   destruct (is_paused_or_completed (wf_state s)); [intros H; inversion H; left; reflexivity|].
   destruct (Nat.ltb 0 (incomplete_count s)); [intros H; inversion H; left; reflexivity|].
   destruct (any_cancels s); [apply wf_set_state_hdr|].
-  destruct (all_errors_handled s); apply wf_set_state_hdr.
+  destruct (all_errors_handled s); [|apply wf_set_state_hdr].
+  destruct (state_eqb _ SUCCESS); [intros H; inversion H; left; reflexivity|apply wf_set_state_hdr].
 Qed.
 
 Lemma hdr_only_ntasks s s1 : hdr_only s s1 -> length (tasks s1) = length (tasks s).
@@ -374,7 +375,9 @@ Proof.
   split; [reflexivity|]. simpl.
   unfold stop_workflow, succeed_workflow, fail_workflow, cancel_workflow in E.
   destruct Hx as [-> | [-> | ->]].
-  - apply wf_set_state_valid in E. left. apply E.
+  - destruct (state_eqb (wf_state s) SUCCESS) eqn:Es.
+    + inversion E; subst. right. split; [destruct (wf_state s1); try discriminate Es; reflexivity|reflexivity].
+    + apply wf_set_state_valid in E. left. apply E.
   - destruct (is_completed (wf_state s)) eqn:Ec.
     + inversion E; subst. right. split; reflexivity.
     + apply wf_set_state_valid in E. left. apply E.
